@@ -929,3 +929,19 @@ def _sx_getitem3(self, obj, key):
 
 
 SX.getitem = _sx_getitem3
+
+
+# ---- slices with a step ------------------------------------------------------------------------------
+_bstr_getitem_prev = BStr.__getitem__
+
+
+def _bstr_getitem_step(self, i):
+    if isinstance(i, slice) and i.step not in (None, 1):
+        if i.step == -1 and i.start is None and i.stop is None:
+            L = self.eng_concretize_len()
+            return BStr(self.eng, list(reversed(self.chars[:L])), L)
+        raise NotImplementedError(f"slice step {i.step} on a symbolic string")
+    return _bstr_getitem_prev(self, i)
+
+
+BStr.__getitem__ = _bstr_getitem_step
